@@ -162,10 +162,6 @@ pub fn reset_all() {
     SEAMS.with(|s| *s.borrow_mut() = SeamState::default())
 }
 
-pub fn returned_count() -> usize {
-    SEAMS.with(|s| s.borrow().returned.len())
-}
-
 // ------------------------------------------------------------------------------------
 // SimExecutor
 
@@ -434,9 +430,6 @@ impl SimBlobs {
         self.0.calls.store(0, Ordering::Relaxed);
         self.0.fired.store(0, Ordering::Relaxed);
         self.0.fail_at.store(k, Ordering::Relaxed);
-    }
-    pub fn calls(&self) -> u64 {
-        self.0.calls.load(Ordering::Relaxed)
     }
     pub fn fired(&self) -> u64 {
         self.0.fired.load(Ordering::Relaxed)
